@@ -95,6 +95,7 @@ type rawScenario struct {
 	Mode   string            `json:"mode"`
 	Cfg    string            `json:"cfg"`
 	Helper string            `json:"helper"`
+	Setup  int               `json:"setup"`
 	Items  []json.RawMessage `json:"items"`
 	Cut    *Cut              `json:"cut"`
 }
@@ -169,7 +170,7 @@ func loadScenarios(alphabet string, files []string) []Scenario {
 			if err := json.Unmarshal(b, &rs); err != nil {
 				die("%s: %v", f, err)
 			}
-			sc := Scenario{Mode: rs.Mode, Cfg: rs.Cfg, Helper: rs.Helper, Cut: rs.Cut}
+			sc := Scenario{Mode: rs.Mode, Cfg: rs.Cfg, Helper: rs.Helper, Setup: rs.Setup, Cut: rs.Cut}
 			for _, ri := range rs.Items {
 				var lab string
 				if json.Unmarshal(ri, &lab) == nil {
@@ -546,7 +547,7 @@ func supervise(alphabet, tracePath string, files []string) {
 		if sc.Mode == "reply" {
 			napp = 1
 		}
-		tw.Write(vt.Ev{"mode": sc.Mode, "cfg": sc.Cfg, "n": len(sc.Items), "napp": napp}, res.Events)
+		tw.Write(vt.Ev{"mode": sc.Mode, "cfg": sc.Cfg, "setup": sc.Setup, "n": len(sc.Items), "napp": napp}, res.Events)
 		tw.Meta(map[string]interface{}{"scenario": sc, "labels": labs, "detail": res.Detail, "bad": res.Bad})
 		for _, e := range res.Events {
 			if o, ok := e["out"].(string); ok {
